@@ -27,12 +27,15 @@ def schema_model():
     impl = M.SType("impl", (M.Key("ik", SINT, default="3"),), implements="a")
     box = M.SType("box", (M.Key("+", attribute="opts", default=(("Da", "1"), ("db", "2"))),
                           M.MultiKey("bm", SINT, defaults=("1", "2")),
+                          # defaults whose CONVERTED value is mutable (a list per default)
+                          M.MultiKey("bl", "string-list", defaults=("a b", "c")),
+                          M.Key("bs", "string-list", default="x y"),
                           M.Sect("*", "leaf", attribute="leaves", multi=True)))
     derived = M.SType("dbox", (M.Key("extra", default="e"),), extends="box", keytype="identifier")
     return M.Schema(
         types=(M.AType("a"), leaf, impl, box, derived),
         items=(M.Key("k1", SINT, default="7"), M.MultiKey("m1", defaults=("dv", "dw")),
-               M.MultiKey("+", attribute="wild", defaults=(("Da", "x"), ("da", "y"), ("db", "z"))),
+               M.MultiKey("+", "string-list", attribute="wild", defaults=(("Da", "x y"), ("da", "y"), ("db", "z"))),
                M.Key("req", required=True),
                M.Sect("*", "box", attribute="boxes", multi=True),
                M.Sect("*", "dbox", attribute="dboxes", multi=True),
@@ -249,7 +252,8 @@ def run(tier):
         bounds={"explicit_depth": depth, "bfs_depth": 8, "operations": nops},
         assumptions=["completeness of vz.harness.load.schema_digest (guarded by the differential oracle of the explicit "
                      "sequences)", "schema: defaults of every kind, derived type with another key type, abstract slot, "
-                     "rejecting section datatype, datatypes loaded by dotted name"])
+                     "rejecting section datatype, datatypes loaded by dotted name, defaults whose converted value is a "
+                     "mutable list (string-list) in single, multi and wildcard keys"])
     shards = [("self-test", (), 0, tier)]
     shards += [("explicit", (i, j), depth, tier) for i in range(nops) for j in range(nops)]
     shards += [("explicit", (i,), 1, tier) for i in range(nops)]
